@@ -184,6 +184,7 @@ func TestCompressedLengths(t *testing.T) {
 	}
 	thorough := ev.Tier() == "thorough"
 	p := getPool()
+	defer recordPoolStats(p)
 	corpus, err := compressedFrames(ev.Seed())
 	if err != nil {
 		t.Fatalf("%v", err)
